@@ -130,6 +130,18 @@ func RunBinaryCase(seed int64, bin, workDir string, forced bool) *HistResult {
 	}
 	tSig := time.Now()
 	_ = cmd.Process.Signal(sig)
+	if !forced && seed%2 == 0 {
+		// an impatient operator repeats the interrupt while the graceful shutdown is waiting for the running job (the
+		// shutdown has begun when schedule requests are refused with 503): it stays a graceful shutdown
+		for i := 0; i < 200; i++ {
+			if code, _ := do("POST", "/pipelines/schedule", map[string]any{"pipeline": "chain"}); code == 503 || code == 0 {
+				break
+			}
+			time.Sleep(5 * time.Millisecond)
+		}
+		_ = cmd.Process.Signal(syscall.SIGINT)
+		res.sit("C11", "binary: SIGINT repeated during the graceful shutdown")
+	}
 	select {
 	case <-exited:
 	case <-time.After(30 * time.Second):
